@@ -133,8 +133,12 @@ func sharedOpts(c Case) *calls.OptsCache {
 
 func sequential(api calls.API, c Case, bufs []*calls.Buf, shared map[int]*sharedPatch) (map[string]calls.Result, error) {
 	want := map[string]calls.Result{}
+	big := calls.BigIndexPatches(c.Bufs)
 	for _, th := range c.Threads {
 		for _, st := range th {
+			if st.Skips(big) {
+				continue
+			}
 			sig := st.Sig(c.Bufs)
 			if _, ok := want[sig]; ok {
 				continue
@@ -158,6 +162,7 @@ func sequential(api calls.API, c Case, bufs []*calls.Buf, shared map[int]*shared
 // concurrent runs the goroutines and returns the first mismatch per goroutine.
 func concurrent(api calls.API, c Case, bufs []*calls.Buf, shared map[int]*sharedPatch, want map[string]calls.Result) []string {
 	oc := sharedOpts(c)
+	big := calls.BigIndexPatches(c.Bufs)
 	old := runtime.GOMAXPROCS(c.Procs)
 	defer runtime.GOMAXPROCS(old)
 	errs := make([]string, len(c.Threads))
@@ -180,6 +185,9 @@ func concurrent(api calls.API, c Case, bufs []*calls.Buf, shared map[int]*shared
 			<-start
 			for r := 0; r < c.Rounds; r++ {
 				for i, st := range th {
+					if st.Skips(big) {
+						continue // index above 10^4 under EnsurePathExistsOnAdd: outside the stated domain
+					}
 					if st.Yield {
 						runtime.Gosched()
 					}
@@ -317,8 +325,12 @@ func TestColdChild(t *testing.T) {
 		msg = err.Error()
 	} else {
 		want := map[string]calls.Result{}
+		bigc := calls.BigIndexPatches(c.Bufs)
 		for _, th := range c.Threads {
 			for _, st := range th {
+				if st.Skips(bigc) {
+					continue
+				}
 				sig := st.Sig(c.Bufs)
 				r, ok := req.Want[sigKey(sig)]
 				if !ok {
